@@ -305,6 +305,41 @@ def run_history(ctx, world, start, ops, variants=None, record=None):
     return trace
 
 
+def abort_probe(ctx, world, rng):
+    """"... the previous console level is back in place when the call returns or raises" - whatever is raised: a decorated call
+    with an override is abandoned at an arbitrary statement of the sift by a BaseException (what Ctrl-C or sys.exit() in a signal
+    handler look like), then the console level, the handler list and the next call's result are checked."""
+    from ..monitors import LineFailpoint, InjectedAbort
+    L = world.L
+    for _ in range(6):
+        world.reset()
+        base_level = gens.pick(rng, ['WARNING', 'INFO', 'CRITICAL'])
+        L.set_up(level=base_level)
+        over = gens.pick(rng, [v for v in ('DEBUG', 'CRITICAL', 'INFO', 'WARNING') if v != base_level])
+        with LineFailpoint(('/emd/sift.py',)) as probe:
+            world.run_variant('sift', over)
+        nlines = probe.lines
+        for k in sorted(set(int(v) for v in rng.integers(1, max(nlines, 2), 4))):
+            before, hb = L.get_level(), world.handlers()
+            case = {'kind': 'abort', 'console': base_level, 'override': over, 'statement': k}
+            ctx.case(digest('abort', base_level, over, k), True)
+            try:
+                with LineFailpoint(('/emd/sift.py',), abort_at=k):
+                    world.run_variant('sift', over)
+            except InjectedAbort:
+                ctx.count('decorated_calls_abandoned_by_a_base_exception')
+            after, ha = L.get_level(), world.handlers()
+            if after != before or ha != hb:
+                ctx.violation('level-not-restored:after-base-exception', 'a sift(verbose=%r) call abandoned by a BaseException at statement %d left the console level at %s '
+                              '(it was %s) / handlers %s' % (over, k, after, before, 'changed' if ha != hb else 'unchanged'), case)
+                return
+            out = world.run_variant('sift', 'omit')
+            if not np.array_equal(out, world.base['sift']):
+                ctx.violation('result-depends-on-logger', 'after an abandoned call the next sift differs from the baseline', case)
+                return
+    world.reset()
+
+
 def fresh_trace(start, ops, variants, logfile):
     """Re-run a history in a fresh interpreter without any reset logic."""
     env = dict(os.environ, EMD_REPO=REPO, PYTHONPATH=VERIF)
@@ -486,6 +521,7 @@ def run_shard(ctx):
                     ctx.sample({'start': start, 'ops': list(ops), 'trace': tr})
         ctx.count('exhaustive_done')
         world.reset()
+        abort_probe(ctx, world, rng)
     finally:
         sys.stdout = old
     # what reaches file descriptor 1, including from worker processes
@@ -537,7 +573,10 @@ def replay(ctx, case):
             world.reset()
             world.base[v] = world.run_variant(v, 'omit')
         world.kw_baselines()
-        run_history(ctx, world, case['start'], case['ops'], case.get('variants'))
+        if case.get('kind') == 'abort':
+            abort_probe(ctx, world, np.random.default_rng(case.get('statement', 0)))
+        else:
+            run_history(ctx, world, case['start'], case['ops'], case.get('variants'))
         world.reset()
     finally:
         sys.stdout = old
